@@ -53,12 +53,14 @@ pub fn c07_padding_twin() {
     let policy = any_policy();
     let mode = any_mode();
     let c = channel(policy, mode);
-    let secured = policy != SecurityPolicy::None && mode != MessageSecurityMode::None;
+    // Part 6: symmetric chunks are padded only when they are encrypted
+    let secured = policy != SecurityPolicy::None && mode == MessageSecurityMode::SignAndEncrypt;
     let hdr = SecurityHeader::Symmetric(SymmetricSecurityHeader { token_id: kani::any() });
     let body: usize = kani::any();
     kani::assume(body <= 0x1000_0000);
     let sig = c.signature_size(&hdr);
     assert!(sig == sym_sig(policy), "C07.twin.signature_size_is_policy_mac_size");
+    let signing = policy != SecurityPolicy::None && mode != MessageSecurityMode::None;
     let (pad, min_pad) = c.padding_size(&hdr, body, sig);
     assert!(pad == spec_pad(secured, body, sig), "C07.twin.padding_is_part6_padding");
     assert!(min_pad == if secured { 1 } else { 0 }, "C07.twin.padding_size_field_width");
@@ -82,6 +84,7 @@ pub fn c07_padding_twin() {
     }
     kani::cover!(secured && m >= MIN_CHUNK_SIZE && body > 8000, "C07.cover.secured_large");
     kani::cover!(!secured && m >= MIN_CHUNK_SIZE, "C07.cover.unsecured");
+    kani::cover!(signing && !secured && m >= MIN_CHUNK_SIZE, "C07.cover.signed_only");
     kani::cover!(m < MIN_CHUNK_SIZE, "C07.cover.too_small");
 }
 
